@@ -16,18 +16,18 @@ Local Open Scope N_scope.
     segmentation: HelloInfo reports exactly the host name and the ALPN list of
     the hello, pulls no more than the buffer size from the connection, and
     still owes the reader the whole stream. *)
-Theorem C14_sniff_exact : forall h extra rest sched,
+Theorem C14_sniff_exact : forall h extra rest sched late,
   wf_hellob h = true ->
   lenN (hello_msg h ++ extra) <= max_plaintext ->
   let stream := build_hello h extra ++ rest in
   exists b',
-    sniff gen_hello_buf_size (br_new (mkConn stream sched))
+    sniff gen_hello_buf_size (br_new (mkConn stream sched late))
       = Ok (SInfo (spec_name h) (spec_protos h), b') /\
     remaining b' = stream /\ binv gen_hello_buf_size b' /\
     b_pulled b' <= gen_hello_buf_size.
 Proof.
-  exact (fun h extra rest sched Hwf Hlen =>
-           sniff_exact gen_hello_buf_size h extra rest sched Hwf Hlen gen_cap_ok).
+  exact (fun h extra rest sched late Hwf Hlen =>
+           sniff_exact gen_hello_buf_size h extra rest sched late Hwf Hlen gen_cap_ok).
 Qed.
 Print Assumptions C14_sniff_exact.
 
@@ -36,9 +36,9 @@ Print Assumptions C14_sniff_exact.
     ([sniff_pure]), it pulls at most the buffer size, and any sequence of
     Reads afterwards returns the stream from its first byte, in order; read
     to the end, all of it. *)
-Theorem C14_consumes_nothing : forall stream sched ms,
+Theorem C14_consumes_nothing : forall stream sched late ms,
   exists b1,
-    sniff gen_hello_buf_size (br_new (mkConn stream sched))
+    sniff gen_hello_buf_size (br_new (mkConn stream sched late))
       = Ok (sniff_pure gen_hello_buf_size stream, b1) /\
     b_pulled b1 <= gen_hello_buf_size /\ binv gen_hello_buf_size b1 /\
     remaining b1 = stream /\
@@ -47,17 +47,18 @@ Theorem C14_consumes_nothing : forall stream sched ms,
       concat chunks ++ remaining b2 = stream /\
       (e <> None -> concat chunks = stream /\ e = Some REof).
 Proof.
-  exact (fun stream sched ms =>
-           sniff_then_reads gen_hello_buf_size stream sched ms gen_cap_ge5).
+  exact (fun stream sched late ms =>
+           sniff_then_reads gen_hello_buf_size stream sched late ms gen_cap_ge5).
 Qed.
 Print Assumptions C14_consumes_nothing.
 
-(** A Read with a non-empty buffer returns at least one byte and no error as
-    long as bytes are owed, so the whole stream does arrive. *)
+(** A Read with a non-empty buffer returns at least one byte as long as bytes
+    are owed, so the whole stream does arrive (an end of stream may be reported
+    together with the last bytes when the connection does so). *)
 Theorem C14_reads_progress : forall m b got e b',
   binv gen_hello_buf_size b -> 0 < m -> remaining b <> [] ->
   bread gen_hello_buf_size m b = (got, e, b') ->
-  (List.length (remaining b') < List.length (remaining b))%nat /\ e = None.
+  (List.length (remaining b') < List.length (remaining b))%nat /\ got <> [].
 Proof.
   exact (fun m b got e b' Hinv =>
            bread_progress gen_hello_buf_size m b got e b'
@@ -77,6 +78,21 @@ Theorem C14_never_wrong_name : forall s name protos,
     tls_sink (firstn (N.to_nat (header_len + (l1 * 256 + l2))) s) = POk (name, protos).
 Proof. exact (sniff_pure_name gen_hello_buf_size). Qed.
 Print Assumptions C14_never_wrong_name.
+
+(** A ClientHello fragmented over several records (which crypto/tls itself
+    accepts) is outside "fits in one TLS record": HelloInfo sees the first
+    record only.  Whatever the cut and whatever follows, the result is an
+    error or the empty name - never a name. *)
+Theorem C14_fragmented_hello : forall h k rest,
+  0 < k -> k < lenN (hello_msg h) -> k < 65536 -> h_rec_vers h < 65536 ->
+  lenN (hello_body h) < 16777216 ->
+  match sniff_pure gen_hello_buf_size (frag_record h k ++ rest) with
+  | SInfo name protos => name = [] /\ protos = []
+  | SErr _ => True
+  | SFuel => False
+  end.
+Proof. exact (sniff_pure_fragment gen_hello_buf_size). Qed.
+Print Assumptions C14_fragmented_hello.
 
 (** The parser's loops never exhaust their fuel. *)
 Theorem C14_parse_total : forall s,
@@ -128,7 +144,7 @@ Proof. vm_compute. repeat split; try reflexivity; discriminate. Qed.
 Example C14_nonvacuous_run :
   exists b,
     sniff gen_hello_buf_size
-      (br_new (mkConn (build_hello ex_hello [] ++ [23; 3; 3]) ([1; 2; 3] ++ rep 1000 20)))
+      (br_new (mkConn (build_hello ex_hello [] ++ [23; 3; 3]) ([1; 2; 3] ++ rep 1000 20) true))
     = Ok (SInfo ex_name [ex_h2; ex_http11], b).
 Proof. vm_compute. eexists. reflexivity. Qed.
 
@@ -139,4 +155,19 @@ Example C14_nonvacuous_bad :
     (build_hello (mkHello 769 771 (rep 7 32) [] [4865] [0]
                     (Some [ESni [(0, ex_name); (0, ex_h2)]])) []) = SInfo [] [] /\
   sniff_pure gen_hello_buf_size (firstn 100 (build_hello ex_hello [])) = SErr REof.
+Proof. vm_compute. repeat split. Qed.
+
+(** Record-layer versions 0x0300 and 0x0304 are accepted like any version
+    below 0x1000 (crypto/tls ignores the record version of the first record);
+    an SSLv2-style hello (first byte 0x80) is "not TLS"; the example hello cut
+    after 100 bytes into two records gives the empty name. *)
+Example C14_nonvacuous_versions :
+  let h v := mkHello v 771 (rep 7 32) [] [4865] [0] (Some [ESni [(0, ex_name)]]) in
+  wf_hellob (h 768) = true /\ wf_hellob (h 772) = true /\ wf_hellob (h 4096) = false /\
+  sniff_pure gen_hello_buf_size (build_hello (h 768) []) = SInfo ex_name [] /\
+  sniff_pure gen_hello_buf_size (build_hello (h 772) []) = SInfo ex_name [] /\
+  sniff_pure gen_hello_buf_size (build_hello (h 4096) []) = SInfo [] [] /\
+  sniff_pure gen_hello_buf_size [128; 46; 1; 0; 2; 0; 21; 0; 0; 0; 16] = SErr RNotTLS /\
+  sniff_pure gen_hello_buf_size
+    (frag_record ex_hello 100 ++ [22; 3; 1; 0; 5; 1; 2; 3; 4; 5]) = SInfo [] [].
 Proof. vm_compute. repeat split. Qed.
